@@ -376,7 +376,7 @@ def apply_ref(s, op, log_flags=None):
 
 
 def external_value(p, letter):
-    return NOMINAL[p] * {'x1': 1.37, 'x2': 0.61}[letter]
+    return NOMINAL[p] * {'x1': 1.37, 'x2': 0.61, 'xneg': -0.8}[letter]
 
 
 def reported_log_flags(opt):
@@ -983,6 +983,11 @@ def explore(ctx):
     ext = [['enable_fit', 'T'], ['compile_params'], ['update_model', 'v1'], ['update_model', 'v2'],
            ['external_set', 'planet_radius', 'x1'], ['external_set', 'T', 'x1'], ['external_set', 'T', 'x2']]
     run_phase(ctx, 'external', ext, 5 if quick else 7)
+    # parameters whose current value is negative (written from outside): boundaries by factors keep the sign
+    neg = [['external_set', 'obs_scale', 'xneg'], ['external_set', 'T', 'xneg'], ['set_factor_boundary', 'obs_scale', 'f1'],
+           ['set_factor_boundary', 'T', 'f1'], ['enable_fit', 'obs_scale'], ['enable_fit', 'T'], ['compile_params'],
+           ['external_set', 'obs_scale', 'x1']]
+    run_phase(ctx, 'negative', neg, 4 if quick else 5)
     if quick:
         # four parameters (default-fit linear, linear, log, observation-side) and all three derived
         # parameters, every operation, depth 3
